@@ -232,6 +232,13 @@ def ack (st : St) (s : Int) : St :=
     { mem := setMeta st.mem queueAcknowledgedSeqOffset s, q := { st.q with acked := s } }
   else st
 
+/-- `SetAppendedSeq` (the reset used by replication resync): both sequences become `s`, both meta
+words are stored; the write cursor and `indexPageIndex` are NOT touched (the next
+persistMetaOfMessage switches the index page itself, with AcquirePage). -/
+def setAppended (st : St) (s : Int) : St :=
+  { mem := setMeta (setMeta st.mem queueAppendedSeqOffset s) queueAcknowledgedSeqOffset s,
+    q := { st.q with appended := s, acked := s } }
+
 /-- `Factory.TruncatePages(bound)` on the data factory: every page below `bound` is unmapped
 and its file removed (its content is gone). -/
 def truncateData (mem : Mem) (bound : Nat) : Mem :=
@@ -307,10 +314,12 @@ inductive Op
   | reopen
   | crashPut (m : Msg) (k : Nat)
   | putFail (m : Msg)             -- a Put during which the data factory's AcquirePage fails
+  | setAppended (s : Int)         -- SetAppendedSeq(s)
 
 def step (st : St) : Op → St
   | .put m => (put st m).1
   | .putFail m => (putF st m).1
+  | .setAppended s => setAppended st s
   | .get _ => st
   | .ack s => ack st s
   | .gc => gc st
